@@ -4,12 +4,13 @@
   Model: `JinjaV.Inherit` (Model/Inherit.lean), the state machine of the generated code: root render functions run
   most-derived first, `extends` appends the parent's block functions to `context.blocks`, top-level output guarded by
   `has_known_extends` / `extends_so_far` / `parent_template`, block call sites dispatch to `blocks[name][0]`,
-  `super()` = `index(current) + 1`, required = `len(blocks[name]) <= 1` at the declaring call site.
+  `super()` = `index(current) + 1`, required = `len(blocks[name]) <= 1` at the declaring call site and
+  `blocks[name][0] is block_name` at the head of a required declaration's own block function.
   Specification: `JinjaV.SpecInherit` (Spec/Inherit.lean), the resolver written from docs/templates.rst.
 
   The theorems quantify over ALL chains `c :: chain = [cₙ, …, c₀]` with `IsChain` (every template is what the loader
   returns and compiles; each starts with an executed `extends` of the next — static, `{% if flag %}`-guarded or through a
-  variable —, nothing else at a child's top level is an `extends` or a `for`; the last reaches no `extends`), all block
+  variable —, nothing else at a child's top level is an `extends`; the last reaches no `extends`), all block
   sets, all variable bindings, every recursion budget `fuel` (nesting depth of block-function calls; the specification
   counts the same nesting, so equalities hold budget by budget, including the "budget exhausted" outcome).
   Helper lemmas: Lemmas/Inherit.lean.
@@ -76,18 +77,15 @@ example : blocksAfter eL 9 eVars 9 (initBlocks e2) e2 = .ok
 
 /-- Rendering the most-derived template = the documented result: the root template's content with every block
     placeholder filled by the most-derived definition, `super()` / `self` resolved along the chain, nothing from the
-    children outside blocks.  Hypothesis `agreeAll`: at every placeholder the emitted length test coincides with "the
-    most-derived definition is a required declaration" (true whenever `required` is used in the root only, see
-    `required_root_partial`; false for F3). -/
+    children outside blocks — not from their top level, and not from `if` / `for` bodies at their top level —, and
+    TemplateRuntimeError exactly where the most-derived definition of a rendered block is a `required` declaration. -/
 theorem render_chain (L : List Tpl) (vars : Vars) (c : Tpl) (chain : List Tpl) (hops fuel : Nat)
-    (hch : IsChain L vars (c :: chain)) (hnd : ((c :: chain).map (·.name)).Nodup) (hlen : chain.length < hops)
-    (hag : agreeAll (c :: chain) = true) :
+    (hch : IsChain L vars (c :: chain)) (hnd : ((c :: chain).map (·.name)).Nodup) (hlen : chain.length < hops) :
     renderTemplate L hops fuel vars c.name = renderChain fuel (c :: chain) vars :=
-  renderTemplate_chain L vars c chain hops fuel hch hnd hlen hag
+  renderTemplate_chain L vars c chain hops fuel hch hnd hlen
 
-example : agreeAll [e2, e1, e0] = true := by decide
 example : renderTemplate eL 9 9 eVars e2.name = renderChain 9 [e2, e1, e0] eVars :=
-  render_chain eL eVars e2 [e1, e0] 9 9 e_chain e_nodup (by decide) (by decide)
+  render_chain eL eVars e2 [e1, e0] 9 9 e_chain e_nodup (by decide)
 example : renderTemplate eL 9 9 eVars "c2" = .ok "[A0<11><22>|B2<B0>B2<B0>]".toList := by decide
 example : renderChain 9 [e2, e1, e0] eVars = .ok "[A0<11><22>|B2<B0>B2<B0>]".toList := by decide
 example : renderTemplate eL 9 9 eVars "c1" = .ok "[A012|B1(B0)B1(B0)]".toList := by decide
@@ -102,6 +100,12 @@ theorem child_root_silent (L : List Tpl) (fuel : Nat) (vars : Vars) (B : Blocks)
 
 example : IsChild eVars e2 e1.name := ⟨.dyn "p", rfl, rfl, rfl⟩
 
+/-- a `[{% block b %}A{% endblock %}]`, l `{% extends "a" %}{% for x in ['1','2'] %}{% block b scoped %}<{{ x }}>{% endblock %}{% endfor %}` -/
+def la : Tpl := ⟨"a", [tx "[", .block "b" false false [tx "A"], tx "]"]⟩
+def lc : Tpl := ⟨"l", [.ext (.lit "a"), .forLoop "x" ["1".toList, "2".toList] [.block "b" true false [tx "<", .var "x", tx ">"]]]⟩
+example : IsChain [la, lc] [] [lc, la] := ⟨rfl, ⟨.lit "a", rfl, rfl, rfl⟩, rfl, rfl⟩
+example : renderTemplate [la, lc] 4 4 [] "l" = .ok "[<>]".toList := by decide
+
 /-! ### `super_next`, `self_most_derived` -/
 
 /-- `super()` inside the `i`-th entry of `blocks[b]` renders entry `i+1`, `super.super()` entry `i+2`, …;
@@ -109,7 +113,7 @@ example : IsChild eVars e2 e1.name := ⟨.dyn "p", rfl, rfl, rfl⟩
 theorem super_next (chain : List Tpl) (B : Blocks) (callee : Inherit.Callee) (vars loc : Vars) (b : Name) (i k : Nat)
     (cur : BRef) (hB : ∀ b, stackOf B b = refs chain b) (hnd : (chain.map (·.name)).Nodup)
     (hcur : (stackOf B b)[i]? = some cur) :
-    pieceWith callee vars B (some cur) true loc (.superCall k)
+    pieceWith callee vars B (some cur) true true loc (.superCall k)
       = match (stackOf B b)[i + 1 + k]? with
         | some next => callee vars next
         | none => .error .undefined := by
@@ -119,40 +123,46 @@ theorem super_next (chain : List Tpl) (B : Blocks) (callee : Inherit.Callee) (va
   cases (refs chain b)[i + 1 + k]? <;> rfl
 
 example : pieceWith (callFn 5 (initBlocks e0)) [] (registerParent (registerParent (initBlocks e2) e1) e0)
-    (some ⟨"c2", ⟨"b", false, false, [tx "B2<", .superCall 1, tx ">"]⟩⟩) true [] (.superCall 1) = .ok "B0".toList := by
+    (some ⟨"c2", ⟨"b", false, false, [tx "B2<", .superCall 1, tx ">"]⟩⟩) true true [] (.superCall 1) = .ok "B0".toList := by
   decide
 example : pieceWith (callFn 5 (initBlocks e0)) [] (registerParent (registerParent (initBlocks e2) e1) e0)
-    (some ⟨"c2", ⟨"b", false, false, []⟩⟩) true [] (.superCall 2) = .error .undefined := by decide
+    (some ⟨"c2", ⟨"b", false, false, []⟩⟩) true true [] (.superCall 2) = .error .undefined := by decide
 
 /-- `self.b()` renders the body of the most-derived definition of `b` along the chain (first definer, most-derived
-    first) as that block function — with the context variables, without the loop variables, output live —, i.e. exactly
-    what an unscoped, non-required placeholder for `b` renders; a name nobody defines is undefined. -/
+    first) as that block function — with the context variables, without the loop variables, output live —, raises if
+    that definition is a `required` declaration, and is exactly what an unscoped, non-required placeholder for `b`
+    renders; a name nobody defines is undefined. -/
 theorem self_most_derived (chain : List Tpl) (B : Blocks) (n : Nat) (vars loc : Vars) (cur : Option BRef) (b : Name)
-    (body : List Piece) (hB : ∀ b, stackOf B b = refs chain b) :
-    pieceWith (callFn (n + 1) B) vars B cur true loc (.selfCall b)
+    (body : List Piece) (hB : ∀ b, stackOf B b = refs chain b) (hnd : (chain.map (·.name)).Nodup) :
+    pieceWith (callFn (n + 1) B) vars B cur true true loc (.selfCall b)
       = (match chain.filterMap (fun t => (findBlock b t.body).map (BRef.mk t.name)) with
         | [] => .error .undefined
-        | r :: _ => listWith (callFn n B) vars B (some r) true [] r.decl.body)
+        | r :: _ => if r.decl.req then .error .required
+                    else listWith (callFn n B) vars B (some r) true true [] r.decl.body)
     ∧ (refs chain b ≠ [] →
-        pieceWith (callFn (n + 1) B) vars B cur true loc (.selfCall b)
-          = pieceWith (callFn (n + 1) B) vars B cur true loc (.block b false false body)) := by
+        pieceWith (callFn (n + 1) B) vars B cur true true loc (.selfCall b)
+          = pieceWith (callFn (n + 1) B) vars B cur true true loc (.block b false false body)) := by
   have hr : refs chain b = chain.filterMap (fun t => (findBlock b t.body).map (BRef.mk t.name)) := rfl
   rw [← hr]
   cases h : refs chain b with
   | nil => simp [pieceWith, hB b, h]
-  | cons r more => simp [pieceWith, hB b, h, callFn]
+  | cons r more =>
+    have h0 : (refs chain b)[0]? = some r := by simp [h]
+    have hh := isRequiredHead_refs chain B hB hnd h0
+    simp only [beq_self_eq_true, Bool.and_true] at hh
+    simp [pieceWith, hB b, h, callFn, hh]
 
 example : (∀ b, stackOf (registerParent (registerParent (initBlocks e2) e1) e0) b = refs [e2, e1, e0] b) :=
   fun b => stackOf_final eL eVars e2 [e1, e0] e_chain b
 example : pieceWith (callFn 5 (registerParent (registerParent (initBlocks e2) e1) e0)) eVars
-    (registerParent (registerParent (initBlocks e2) e1) e0) none true [] (.selfCall "b") = .ok "B2<B0>".toList := by decide
+    (registerParent (registerParent (initBlocks e2) e1) e0) none true true [] (.selfCall "b") = .ok "B2<B0>".toList := by decide
 
 example : stackOf (registerParent (registerParent (initBlocks e2) e1) e0) "b"
     = ⟨"c2", ⟨"b", false, false, [tx "B2<", .superCall 1, tx ">"]⟩⟩ :: [⟨"c1", ⟨"b", false, false, [tx "B1(", .superCall 0, tx ")"]⟩⟩,
         ⟨"c0", ⟨"b", false, false, [tx "B0"]⟩⟩] := by rfl
 
 theorem self_unknown_undefined (callee : Inherit.Callee) (vars loc : Vars) (B : Blocks) (cur : Option BRef) (b : Name)
-    (h : stackOf B b = []) : pieceWith callee vars B cur true loc (.selfCall b) = .error .undefined := by
+    (h : stackOf B b = []) : pieceWith callee vars B cur true true loc (.selfCall b) = .error .undefined := by
   simp [pieceWith, h]
 
 example : stackOf (initBlocks e0) "zz" = [] := by rfl
@@ -164,52 +174,60 @@ example : stackOf (initBlocks e0) "zz" = [] := by rfl
     definition is what runs. -/
 theorem scoped_sees_locals (n : Nat) (B : Blocks) (vars loc : Vars) (cur : Option BRef) (b x : Name) (rq0 : Bool)
     (body : List Piece) (top : BRef) (more : List BRef) (h : stackOf B b = top :: more)
-    (hbody : top.decl.body = [.var x]) (hreq : (rq0 && more.isEmpty) = false) :
-    pieceWith (callFn (n + 1) B) vars B cur true loc (.block b true rq0 body) = .ok (showVar loc vars x)
-    ∧ pieceWith (callFn (n + 1) B) vars B cur true loc (.block b false rq0 body) = .ok (showVar [] vars x) := by
-  simp [pieceWith, h, hreq, callFn, listWith, hbody, showVar, lookupVar]
+    (hbody : top.decl.body = [.var x]) (hreq : (rq0 && more.isEmpty) = false) (hnr : top.decl.req = false) :
+    pieceWith (callFn (n + 1) B) vars B cur true true loc (.block b true rq0 body) = .ok (showVar loc vars x)
+    ∧ pieceWith (callFn (n + 1) B) vars B cur true true loc (.block b false rq0 body) = .ok (showVar [] vars x) := by
+  simp [pieceWith, h, hreq, callFn, isRequiredHead, hnr, listWith, hbody, showVar, lookupVar]
 
-example : pieceWith (callFn 3 (initBlocks e0)) [("x", "ctx".toList)] (initBlocks e0) none true [("x", "loop".toList)]
+example : pieceWith (callFn 3 (initBlocks e0)) [("x", "ctx".toList)] (initBlocks e0) none true true [("x", "loop".toList)]
     (.block "i" true false []) = .ok "loop".toList := by decide
-example : pieceWith (callFn 3 (initBlocks e0)) [("x", "ctx".toList)] (initBlocks e0) none true [("x", "loop".toList)]
+example : pieceWith (callFn 3 (initBlocks e0)) [("x", "ctx".toList)] (initBlocks e0) none true true [("x", "loop".toList)]
     (.block "i" false false []) = .ok "ctx".toList := by decide
 
 /-! ### required blocks -/
 
 /-- The full-strength statement: rendering agrees with the documentation for every chain, wherever `required` is
-    used.  It is FALSE of the model (and of the code): `JinjaV.Findings.F3.F3_witness`. -/
+    declared (root, middle or most-derived template; top level or nested). -/
 def RequiredAnywhere : Prop :=
   ∀ (L : List Tpl) (vars : Vars) (c : Tpl) (chain : List Tpl) (hops fuel : Nat),
     IsChain L vars (c :: chain) → ((c :: chain).map (·.name)).Nodup → chain.length < hops →
     renderTemplate L hops fuel vars c.name = renderChain fuel (c :: chain) vars
 
-/-- What is proved: if `required` is used only in the template that ends up as the root of the chain, rendering
-    agrees with the documentation (in particular it raises TemplateRuntimeError exactly when the placeholder's
-    most-derived definition is the root's required declaration, i.e. when no descendant overrides it). -/
-theorem required_root_partial (L : List Tpl) (vars : Vars) (c : Tpl) (chain : List Tpl) (hops fuel : Nat)
-    (hch : IsChain L vars (c :: chain)) (hnd : ((c :: chain).map (·.name)).Nodup) (hlen : chain.length < hops)
-    (hreq : reqOnlyRoot (c :: chain) = true) :
-    renderTemplate L hops fuel vars c.name = renderChain fuel (c :: chain) vars := by
-  obtain ⟨root, hroot⟩ : ∃ root, (c :: chain).getLast? = some root := by
-    cases h' : (c :: chain).getLast? with
-    | none => simp at h'
-    | some r => exact ⟨r, rfl⟩
-  have hsplit : c :: chain = (c :: chain).dropLast ++ [root] := eq_dropLast_append_of_getLast? _ root hroot
-  have hmem : root ∈ c :: chain := List.mem_of_getLast? hroot
-  have hnr := nodup_of_compileOk (load_ok (IsChain.all_load _ hch root hmem))
-  have hag : agreeAll (c :: chain) = true := by
-    rw [hsplit] at hreq ⊢
-    exact agreeAll_of_reqOnlyRoot _ root hnr hreq
-  exact renderTemplate_chain L vars c chain hops fuel hch hnd hlen hag
+theorem required_anywhere : RequiredAnywhere :=
+  fun L vars c chain hops fuel hch hnd hlen => renderTemplate_chain L vars c chain hops fuel hch hnd hlen
 
-/-- The placeholder of a required block declared in the root `root` (chain = `kids ++ [root]`): it raises iff no
-    descendant defines the block; otherwise the most-derived descendant's definition is called. -/
+/-- A placeholder (declared anywhere, required or not) whose most-derived definition along the chain is a `required`
+    declaration raises TemplateRuntimeError: either the call-site test fires or the declaration's own block function
+    refuses to be the head of its stack. -/
+theorem required_most_derived_raises (chain : List Tpl) (B : Blocks) (n : Nat) (vars loc : Vars) (cur : Option BRef)
+    (b : Name) (sc rq : Bool) (body : List Piece) (top : BRef) (more : List BRef)
+    (hB : ∀ b, stackOf B b = refs chain b) (hnd : (chain.map (·.name)).Nodup)
+    (h : refs chain b = top :: more) (hreq : top.decl.req = true) :
+    pieceWith (callFn n B) vars B cur true true loc (.block b sc rq body) = .error .required := by
+  have h0 : (refs chain b)[0]? = some top := by simp [h]
+  have hh : isRequiredHead B top = true := by rw [isRequiredHead_refs chain B hB hnd h0]; simp [hreq]
+  simp only [pieceWith, if_true, hB b, h]
+  split
+  · rfl
+  · cases n <;> simp [callFn, hh]
+
+/-- … and through `super()` from an override it is still reachable (it is not the head then). -/
+theorem required_via_super_renders (chain : List Tpl) (B : Blocks) (n : Nat) (vars : Vars) (b : Name) (i : Nat)
+    (r : BRef) (hB : ∀ b, stackOf B b = refs chain b) (hnd : (chain.map (·.name)).Nodup)
+    (h : (refs chain b)[i + 1]? = some r) :
+    callFn (n + 1) B vars r = listWith (callFn n B) vars B (some r) true true [] r.decl.body := by
+  have : isRequiredHead B r = false := by rw [isRequiredHead_refs chain B hB hnd h]; simp
+  simp [callFn, this]
+
+/-- The placeholder of a required block declared in the root `root` (chain = `kids ++ [root]`): the call-site test
+    raises iff no descendant defines the block; otherwise the most-derived descendant's definition is called. -/
 theorem required_root_iff (kids : List Tpl) (root : Tpl) (B : Blocks) (callee : Inherit.Callee) (vars loc : Vars)
     (b : Name) (sc : Bool) (body : List Piece) (d : Decl)
     (hB : ∀ b, stackOf B b = refs (kids ++ [root]) b) (hroot : findBlock b root.body = some d) :
-    (refs kids b = [] → pieceWith callee vars B none true loc (.block b sc true body) = .error .required)
+    (refs kids b = [] → pieceWith callee vars B none true true loc (.block b sc true body) = .error .required)
     ∧ (∀ top more, refs kids b = top :: more →
-        pieceWith callee vars B none true loc (.block b sc true body) = callee (if sc then loc ++ vars else vars) top) := by
+        pieceWith callee vars B none true true loc (.block b sc true body)
+          = callee (if sc then loc ++ vars else vars) top) := by
   have happ : refs (kids ++ [root]) b = refs kids b ++ [⟨root.name, d⟩] := by
     simp [refs, List.filterMap_append, refOf, hroot]
   constructor
@@ -221,11 +239,24 @@ theorem required_root_iff (kids : List Tpl) (root : Tpl) (B : Blocks) (callee : 
 def r0 : Tpl := ⟨"r0", [tx "[", .block "b" false true [], tx "]"]⟩
 def r1 : Tpl := ⟨"r1", [.ext (.lit "r0")]⟩
 def r2 : Tpl := ⟨"r2", [.ext (.lit "r1"), .block "b" false false [tx "ok"]]⟩
-example : IsChain [r0, r1, r2] [] [r2, r1, r0] ∧ reqOnlyRoot [r2, r1, r0] = true :=
-  ⟨⟨rfl, ⟨.lit "r1", rfl, rfl, rfl⟩, rfl, ⟨.lit "r0", rfl, rfl, rfl⟩, rfl, rfl⟩, by decide⟩
+example : IsChain [r0, r1, r2] [] [r2, r1, r0] :=
+  ⟨rfl, ⟨.lit "r1", rfl, rfl, rfl⟩, rfl, ⟨.lit "r0", rfl, rfl, rfl⟩, rfl, rfl⟩
 example : renderTemplate [r0, r1, r2] 9 9 [] "r2" = .ok "[ok]".toList := by decide
 example : renderTemplate [r0, r1, r2] 9 9 [] "r1" = .error .required := by decide
 example : renderTemplate [r0, r1, r2] 9 9 [] "r0" = .error .required := by decide
+
+/-- the ledger entry F3: c0 `[{% block b %}base{% endblock %}]`, c1 `{% extends "c0" %}{% block b required %}{% endblock %}`,
+    c2 `{% extends "c1" %}`, c3 `{% extends "c2" %}{% block b %}<{{ super() }}|{{ super.super() }}>{% endblock %}` -/
+def f0 : Tpl := ⟨"c0", [tx "[", .block "b" false false [tx "base"], tx "]"]⟩
+def f1 : Tpl := ⟨"c1", [.ext (.lit "c0"), .block "b" false true []]⟩
+def f2 : Tpl := ⟨"c2", [.ext (.lit "c1")]⟩
+def f3 : Tpl := ⟨"c3", [.ext (.lit "c2"), .block "b" false false [tx "<", .superCall 0, tx "|", .superCall 1, tx ">"]]⟩
+example : IsChain [f0, f1, f2, f3] [] [f2, f1, f0] :=
+  ⟨rfl, ⟨.lit "c1", rfl, rfl, rfl⟩, rfl, ⟨.lit "c0", rfl, rfl, rfl⟩, rfl, rfl⟩
+example : renderTemplate [f0, f1, f2, f3] 9 9 [] "c2" = .error .required := by decide
+example : renderTemplate [f0, f1, f2, f3] 9 9 [] "c1" = .error .required := by decide
+example : renderChain 9 [f2, f1, f0] [] = .error .required := by decide
+example : renderTemplate [f0, f1, f2, f3] 9 9 [] "c3" = .ok "[<|base>]".toList := by decide
 
 /-! ### `extends_twice` -/
 
